@@ -65,7 +65,7 @@ def main():
         res["demo_clean_rc"] = rc
         res["demo_clean_tail"] = out[-600:]
         unplace()
-        rc, out = sh("git apply %s" % os.path.join(seed, "patch.diff"), cwd=wt)
+        rc, out = sh("git apply %s || git apply -3 %s" % (os.path.join(seed, "patch.diff"), os.path.join(seed, "patch.diff")), cwd=wt)
         res["apply_rc"] = rc
         if rc:
             res["apply_out"] = out[-800:]
